@@ -7,6 +7,7 @@ import (
 	"sort"
 	"strings"
 	"sync"
+	"sync/atomic"
 	"time"
 
 	"github.com/gorilla/websocket"
@@ -342,7 +343,117 @@ func runC15(r *Run) {
 	}
 	r.c15Scenario("tcp", I, T, "answers-always-after-drop", always, 1800*time.Millisecond, 350*time.Millisecond, false)
 	r.c15AfterAuthRecovery()
+	r.c15BusyButSilent()
+	r.c15OptionOrder()
 	r.c15Echo()
+}
+
+// kaPeer: accepts connections; heartbeats answered per answer(conn, n) after latency; every other request echoed.
+func kaPeer(s *session, stop chan struct{}, answer func(conn, n int) (bool, time.Duration), nconn *int32) {
+	for {
+		pc := s.tcp.accept(5 * time.Second)
+		if pc == nil {
+			return
+		}
+		if !pc.readHandshake(time.Second) {
+			continue
+		}
+		ci := int(atomic.AddInt32(nconn, 1)) - 1
+		go func() {
+			n := 0
+			for {
+				select {
+				case <-stop:
+					return
+				default:
+				}
+				f := pc.readFrame(50 * time.Millisecond)
+				if f == nil {
+					if pc.closed {
+						return
+					}
+					continue
+				}
+				if f.Type != 1 {
+					continue
+				}
+				if f.Cmd == 1 {
+					ok, d := answer(ci, n)
+					n++
+					if ok {
+						fr := respFrame(1, 1, f.Rid, 0, f.Body)
+						if d == 0 {
+							pc.send(fr)
+						} else {
+							go func() { time.Sleep(d); pc.send(fr) }()
+						}
+					}
+					continue
+				}
+				pc.send(respFrame(1, f.Cmd, f.Rid, 0, f.Body))
+			}
+		}()
+	}
+}
+
+// c15BusyButSilent: the peer answers every ordinary request but no heartbeat: it must still be declared dead within
+// interval + timeout (only heartbeat answers prove liveness).
+func (r *Run) c15BusyButSilent() {
+	I, T := 100*time.Millisecond, 250*time.Millisecond
+	time.Sleep(I + 60*time.Millisecond)
+	hub.reset()
+	s := &session{tc: newTestClient(), v: 1, trans: "tcp"}
+	s.tcp = newTCPPeer()
+	stop := make(chan struct{})
+	var nconn int32
+	go kaPeer(s, stop, func(c, n int) (bool, time.Duration) { return c > 0, 0 }, &nconn)
+	if err := s.tc.dial(s.tcp.url(), 1, client.Keepalive(I), client.KeepaliveTimeout(T), client.DialTimeout(time.Second)); err == nil {
+		t0 := time.Now()
+		deadline := t0.Add(I + T + I + 400*time.Millisecond)
+		for time.Now().Before(deadline) && atomic.LoadInt32(&nconn) < 2 {
+			ch := s.tc.doAsync(30, nil, 200*time.Millisecond)
+			awaitDo(ch, time.Second)
+			time.Sleep(30 * time.Millisecond)
+		}
+		if atomic.LoadInt32(&nconn) < 2 {
+			r.violate(Violation{What: "a peer that stopped answering heartbeats was not detected although interval + timeout passed (it kept answering ordinary requests)",
+				Case: "tcp I=100ms T=250ms, a request every 30 ms, all answered; no heartbeat answered"})
+		}
+		r.st.Evaluations++
+		r.count("c15.tcp.busy-but-silent")
+	}
+	close(stop)
+	s.close()
+}
+
+// c15OptionOrder: the configured timeout holds whatever the order of the two options: a peer that answers every
+// heartbeat after 2.5 intervals, well inside the timeout, is never declared dead.
+func (r *Run) c15OptionOrder() {
+	I, T, lat := 100*time.Millisecond, 450*time.Millisecond, 250*time.Millisecond
+	for _, order := range []string{"interval-then-timeout", "timeout-then-interval"} {
+		time.Sleep(I + 60*time.Millisecond)
+		hub.reset()
+		s := &session{tc: newTestClient(), v: 1, trans: "tcp"}
+		s.tcp = newTCPPeer()
+		stop := make(chan struct{})
+		var nconn int32
+		go kaPeer(s, stop, func(c, n int) (bool, time.Duration) { return true, lat }, &nconn)
+		opts := []client.DialOption{client.Keepalive(I), client.KeepaliveTimeout(T), client.DialTimeout(time.Second)}
+		if order == "timeout-then-interval" {
+			opts = []client.DialOption{client.KeepaliveTimeout(T), client.Keepalive(I), client.DialTimeout(time.Second)}
+		}
+		if err := s.tc.dial(s.tcp.url(), 1, opts...); err == nil {
+			time.Sleep(1500 * time.Millisecond)
+			if n := atomic.LoadInt32(&nconn); n != 1 {
+				r.violate(Violation{What: fmt.Sprintf("a peer that answers every heartbeat within the configured timeout was declared dead: %d connections instead of 1", n),
+					Case: "tcp options " + order + ": Keepalive 100 ms, KeepaliveTimeout 450 ms, answers after 250 ms"})
+			}
+			r.st.Evaluations++
+			r.count("c15.tcp.option-order." + order)
+		}
+		close(stop)
+		s.close()
+	}
 }
 
 // c15AfterAuthRecovery: an authenticated client, a peer that goes silent (socket open) so that the keepalive recycles
